@@ -163,6 +163,9 @@ bool splinetable<Alloc>::read_fits_mem(void* buffer, size_t buffer_size){
 	
 template<typename Alloc>
 bool splinetable<Alloc>::read_fits_core(fitsfile* fits, const std::string& filePath, size_t fileSize){
+	//An empty table may still carry auxiliary keys set through write_key;
+	//they are replaced by those of the file.
+	release_storage();
 	//A failed read must leave this object empty, reusable and destructible,
 	//not half built.
 	try{
